@@ -1,8 +1,9 @@
 (* C09: internal::MemPoolUInt32 (the pool with 32-bit block handles, MemPool.h 806-942): proofs about the GENERATED index
-   arithmetic (Gen_MemPoolUInt32.v: GetRealPointer, pvGetBufferSize, pvNewBuffer incl. the maxTotalBlockCount refusal). *)
+   arithmetic (Gen_MemPoolUInt32.v: GetRealPointer, pvGetBufferSize, pvNewBuffer incl. the maxTotalBlockCount refusal and the
+   uint32 "next free handle" stored into every block of the new buffer). *)
 From Coq Require Import ZArith List Bool Lia.
 From MomoCommon Require Import GenPrelude.
-From C09 Require Gen_MemPoolUInt32.
+From C09 Require PoolU32Prims Gen_MemPoolUInt32.
 Import ListNotations.
 Local Open Scope Z_scope.
 
@@ -15,12 +16,12 @@ Hypothesis Hbc : 1 <= bc.
 Hypothesis Hbs : 4 <= bs.
 Hypothesis Hsz : bc * bs < 2 ^ 63.          (* the constructor rejects mBlockSize > maxSize / blockCount *)
 
-Lemma buffersize_spec mB mH mM mA : Gen_MemPoolUInt32.pvGetBufferSize bc mB mH mM bs mA = bc * bs.
+Lemma buffersize_spec mB mN mem mH mM mA : Gen_MemPoolUInt32.pvGetBufferSize bc mB mN mem mH mM bs mA = bc * bs.
 Proof. unfold Gen_MemPoolUInt32.pvGetBufferSize. apply wrapU_small. rewrite two64. change (2 ^ 63) with 9223372036854775808 in Hsz. nia. Qed.
 
 (* GetRealPointer: handle h denotes block (h mod blockCount) of buffer (h / blockCount) *)
-Lemma realpointer_spec mB mH mM mA h : 0 <= h < 4294967295 ->
-  Gen_MemPoolUInt32.GetRealPointer bc mB mH mM bs mA h = Ok (mB (h / bc) + (h mod bc) * bs).
+Lemma realpointer_spec mB mN mem mH mM mA h : 0 <= h < 4294967295 ->
+  Gen_MemPoolUInt32.GetRealPointer bc mB mN mem mH mM bs mA h = Ok (mB (h / bc) + (h mod bc) * bs).
 Proof.
   intros Hh. unfold Gen_MemPoolUInt32.GetRealPointer, Gen_MemPoolUInt32.nullPtr.
   destruct (Z.eqb_spec h 4294967295); [lia|]. cbn [negb]. cbv zeta.
@@ -30,12 +31,12 @@ Qed.
 
 (* handle <-> (buffer, offset): different handles below n*blockCount denote disjoint blocks, each inside its buffer, provided the
    n buffers (pvGetBufferSize bytes each) are disjoint *)
-Theorem handles_disjoint mB mH mM mA n h h' :
+Theorem handles_disjoint mB mN mem mH mM mA n h h' :
   0 <= h < n * bc -> 0 <= h' < n * bc -> n * bc <= 4294967295 -> h <> h' ->
   (forall k k', 0 <= k < n -> 0 <= k' < n -> k <> k' -> mB k + bc * bs <= mB k' \/ mB k' + bc * bs <= mB k) ->
-  exists a a', Gen_MemPoolUInt32.GetRealPointer bc mB mH mM bs mA h = Ok a /\
-               Gen_MemPoolUInt32.GetRealPointer bc mB mH mM bs mA h' = Ok a' /\
-               0 <= h / bc < n /\ mB (h / bc) <= a /\ a + bs <= mB (h / bc) + Gen_MemPoolUInt32.pvGetBufferSize bc mB mH mM bs mA /\
+  exists a a', Gen_MemPoolUInt32.GetRealPointer bc mB mN mem mH mM bs mA h = Ok a /\
+               Gen_MemPoolUInt32.GetRealPointer bc mB mN mem mH mM bs mA h' = Ok a' /\
+               0 <= h / bc < n /\ mB (h / bc) <= a /\ a + bs <= mB (h / bc) + Gen_MemPoolUInt32.pvGetBufferSize bc mB mN mem mH mM bs mA /\
                (a + bs <= a' \/ a' + bs <= a).
 Proof.
   intros Hh Hh' Hn Ne Dis. rewrite buffersize_spec.
@@ -52,31 +53,58 @@ Proof.
   - destruct (Dis (h / bc) (h' / bc) K K' N); [left|right]; nia.
 Qed.
 
-Lemma loop_spec buffer bufferCount : forall fuel i, 0 <= i <= bc -> (Z.to_nat (bc - i) < fuel)%nat ->
-  Gen_MemPoolUInt32.pvNewBuffer_loop0 bc fuel buffer bufferCount bs i = Ok bc.
+(* the value pvNewBuffer's loop stores into block i of buffer number n: the next handle of the same buffer, the null handle in the last block *)
+Definition nextval (n i : Z) : Z := if i + 1 <? bc then n * bc + i + 1 else 4294967295.
+
+Lemma loop_spec buffer n : 0 <= n -> n * bc + bc <= 4294967294 ->
+  forall fuel i mem, 0 <= i <= bc -> (Z.to_nat (bc - i) < fuel)%nat ->
+  exists mem', Gen_MemPoolUInt32.pvNewBuffer_loop0 bc fuel buffer n bs i mem = Ok (bc, mem') /\
+    (forall j, i <= j < bc -> mem' (buffer + bs * j) = nextval n j) /\
+    (forall a, (forall j, i <= j < bc -> a <> buffer + bs * j) -> mem' a = mem a).
 Proof.
-  induction fuel as [|fuel IH]; intros i Hi Hf; [lia|]. rewrite Gen_MemPoolUInt32.pvNewBuffer_loop0_eq.
-  destruct (Z.ltb_spec i bc) as [L|G]; [|f_equal; lia]. cbv zeta.
-  rewrite (wrapU_small 64 (i + 1)) by (rewrite two64; change (2 ^ 63) with 9223372036854775808 in Hsz; nia).
-  apply IH; lia.
+  intros Hn Hlim. induction fuel as [|fuel IH]; intros i mem Hi Hf; [lia|]. rewrite Gen_MemPoolUInt32.pvNewBuffer_loop0_eq.
+  change (2 ^ 63) with 9223372036854775808 in Hsz.
+  destruct (Z.ltb_spec i bc) as [L|G].
+  2:{ exists mem. split; [do 2 f_equal; lia|]. split; [intros; lia|reflexivity]. }
+  cbv zeta.
+  rewrite (wrapU_small 64 (i + 1)) by (rewrite two64; nia).
+  rewrite (wrapU_small 64 (bs * i)) by (rewrite two64; nia).
+  assert (0 <= n * bc) by nia.
+  rewrite (wrapU_small 64 (n * bc)) by (rewrite two64; lia).
+  rewrite (wrapU_small 64 (n * bc + i)) by (rewrite two64; lia).
+  rewrite (wrapU_small 64 (n * bc + i + 1)) by (rewrite two64; lia).
+  rewrite (wrapU_small 32 (n * bc + i + 1)) by (rewrite two32; lia).
+  fold (nextval n i). unfold Gen_MemPoolUInt32.nullPtr. fold (nextval n i).
+  destruct (IH (i + 1) (PoolU32Prims.store32 mem (nextval n i) (buffer + bs * i)) ltac:(lia) ltac:(lia)) as (mem' & E & Hin & Hout).
+  exists mem'. split; [exact E|]. split.
+  - intros j Hj. destruct (Z.eq_dec j i) as [->|Nj]; [|apply Hin; lia].
+    rewrite Hout; [unfold PoolU32Prims.store32, upd; rewrite Z.eqb_refl; reflexivity|]. intros j' Hj'. nia.
+  - intros a Ha. rewrite Hout by (intros j Hj; apply Ha; lia). unfold PoolU32Prims.store32, upd.
+    destruct (Z.eqb_spec a (buffer + bs * i)) as [->|]; [exfalso; apply (Ha i); [lia|reflexivity]|reflexivity].
 Qed.
 
-(* pvNewBuffer 903-919: below the limit the new buffer gets the handles bufferCount*blockCount .. +blockCount-1: no 32-bit
-   wrap-around, never the null handle, and mBlockHead becomes the first of them; at the limit maxTotalBlockCount/blockCount it
-   throws (outcome Exn) *)
-Theorem newbuffer_spec mB mH mM mA buffer bufferCount :
-  0 <= bufferCount -> mM * bc <= 4294967294 ->     (* mMaxBufferCount = maxTotalBlockCount / blockCount, maxTotalBlockCount < 2^32-1 *)
-  (bufferCount < mM ->
-     Gen_MemPoolUInt32.pvNewBuffer bc mB mH mM bs mA buffer bufferCount = Ok (tt, bufferCount * bc) /\
-     forall i, 0 <= i < bc -> 0 <= bufferCount * bc + i < 4294967295 /\ wrapU 32 (bufferCount * bc + i) = bufferCount * bc + i) /\
-  (mM <= bufferCount -> Gen_MemPoolUInt32.pvNewBuffer bc mB mH mM bs mA buffer bufferCount = Exn).
+(* pvNewBuffer 903-919: below the limit the new buffer gets the handles n*blockCount .. +blockCount-1 (n = mBuffers.GetCount()): no
+   32-bit wrap-around, never the null handle; mBlockHead becomes the first of them, the buffer is appended to mBuffers, block i of it
+   holds the handle of block i+1 (the last one the null handle), no other memory cell changes; at the limit
+   maxTotalBlockCount/blockCount it throws (outcome Exn) before changing anything *)
+Theorem newbuffer_spec mB mN mem mH mM mA buffer :
+  0 <= mN -> mM * bc <= 4294967294 ->     (* mMaxBufferCount = maxTotalBlockCount / blockCount, maxTotalBlockCount < 2^32-1 *)
+  (mN < mM ->
+     (exists mem', Gen_MemPoolUInt32.pvNewBuffer bc mB mN mem mH mM bs mA buffer = Ok (tt, upd mB mN buffer, mN + 1, mem', mN * bc) /\
+        (forall j, 0 <= j < bc -> mem' (buffer + bs * j) = nextval mN j) /\
+        (forall a, (forall j, 0 <= j < bc -> a <> buffer + bs * j) -> mem' a = mem a)) /\
+     forall i, 0 <= i < bc -> 0 <= mN * bc + i < 4294967295 /\ wrapU 32 (mN * bc + i) = mN * bc + i) /\
+  (mM <= mN -> Gen_MemPoolUInt32.pvNewBuffer bc mB mN mem mH mM bs mA buffer = Exn).
 Proof.
-  intros H0 HM. unfold Gen_MemPoolUInt32.pvNewBuffer. split.
-  - intros Hlt. rewrite Z.geb_leb. destruct (Z.leb_spec mM bufferCount); [lia|]. cbv zeta.
-    unfold Gen_MemPoolUInt32.fuel_of_pvNewBuffer. rewrite loop_spec by lia.
-    assert (0 <= bufferCount * bc /\ bufferCount * bc + bc <= 4294967294) as (B1 & B2) by nia.
-    rewrite (wrapU_small 64) by (rewrite two64; lia). rewrite (wrapU_small 32) by (rewrite two32; lia).
-    split; [reflexivity|]. intros i Hi. split; [lia|]. apply wrapU_small. rewrite two32. lia.
-  - intros Hge. rewrite Z.geb_leb. destruct (Z.leb_spec mM bufferCount); [reflexivity|lia].
+  intros H0 HM. unfold Gen_MemPoolUInt32.pvNewBuffer. cbv zeta. split.
+  - intros Hlt. rewrite Z.geb_leb. destruct (Z.leb_spec mM mN); [lia|].
+    assert (0 <= mN * bc /\ mN * bc + bc <= 4294967294) as (B1 & B2) by nia.
+    unfold Gen_MemPoolUInt32.fuel_of_pvNewBuffer.
+    destruct (loop_spec buffer mN H0 B2 (Z.to_nat (bc + 1)) 0 mem ltac:(lia) ltac:(lia)) as (mem' & E & Hin & Hout).
+    rewrite E. split.
+    + exists mem'. rewrite (wrapU_small 64 (mN * bc)) by (rewrite two64; lia). rewrite (wrapU_small 32) by (rewrite two32; lia).
+      rewrite (wrapU_small 64 (mN + 1)) by (rewrite two64; nia). split; [reflexivity|]. split; assumption.
+    + intros i Hi. split; [lia|]. apply wrapU_small. rewrite two32. lia.
+  - intros Hge. rewrite Z.geb_leb. destruct (Z.leb_spec mM mN); [reflexivity|lia].
 Qed.
 End U32.
